@@ -103,6 +103,7 @@ func draw(kind string, seed, n int) []*genlab.ProgSpec {
 			}
 			if kind == "service" {
 				o.MoreServices = true
+				o.TypedefArgs = true
 			}
 			p := im.GenProgram(t, o)
 			return &genlab.ProgSpec{ID: fmt.Sprintf("p%d", i), Program: p, Opts: optsFor(t, kind)}
